@@ -137,11 +137,16 @@ def judge(case, out):
 def wake_cases(tier, seed):
     rnd = random.Random(seed * 77 + 5)
     cases = ["p w W1 d400 d400 d300", "W1 p d400 d400 d300", "w w d400 d300", "p d400 d300", "w d400 p W2 d400 d400 d300",
-             "w p W1 d400 w d400 d300", "W2 p w d400 d400 d400 d300"]
+             "w p W1 d400 w d400 d300", "W2 p w d400 d400 d400 d300",
+             # a timer is pending and bounds the wait (T<ms>: due in ms): a wake-up must still end the wait at once
+             "T700 w d2000 d300", "T700 p d2000 d300", "T900 W1 p d2000 d2000 d300", "T600 d2000 w d300", "T800 w d2000 w d2000 d2000"]
     for _ in range(10 if tier == "quick" else 120):
         ops = []
+        timer = rnd.random() < 0.4
+        if timer:
+            ops.append("T%d" % rnd.choice([500, 700, 900]))
         for _ in range(rnd.randint(3, 8)):
-            ops.append(rnd.choice(["p", "w", "W1", "W2", "d300", "d300"]))
+            ops.append(rnd.choice(["p", "w", "W1", "W2", "d300", "d300"] + (["d1500"] if timer else [])))
         ops += ["d300", "d300"]
         cases.append(" ".join(ops))
     return cases
@@ -158,7 +163,11 @@ def judge_wake(case, out):
     notified = pinged = False
     cbw = 0
     k = 0
+    due = None            # ms until the pending timer is due, counted down by the measured durations
     for o in ops:
+        if o[0] == "T":
+            due = int(o[1:])
+            continue
         if o == "p":
             pinged = True
         elif o == "w":
@@ -169,6 +178,13 @@ def judge_wake(case, out):
             ms = int(o[1:])
             el, calls = (int(x) for x in obs[k].split(":"))
             k += 1
+            bound = ms if due is None else min(ms, max(due, 0))      # the timer bounds the wait and fires at its end
+            timer_fires = due is not None and due <= ms
+            overdue = due is not None and due <= 0
+            if due is not None:
+                due -= el
+            if (pinged or notified) and overdue:
+                due = None        # an overdue timer is collected by this dispatch as well
             if pinged or notified:
                 if el > 150:
                     return ["lost wakeup: dispatch %d waited %d ms although a %s was pending when it started waiting" % (k, el, "ping" if pinged else "wakeup()")]
@@ -182,8 +198,12 @@ def judge_wake(case, out):
                         notified = True
                         cbw = 0
             else:
-                if el + 5 < ms:
-                    return ["spurious wake: dispatch %d returned after %d ms of %d with nothing pending" % (k, el, ms)]
+                if timer_fires:
+                    due = None
+                if el + 25 < bound if timer_fires else el + 5 < bound:
+                    return ["spurious wake: dispatch %d returned after %d ms of %d with nothing pending" % (k, el, bound)]
+                if el > bound + 250:
+                    return ["late: dispatch %d took %d ms, its wait was bounded by %d ms" % (k, el, bound)]
                 if calls:
                     return ["dispatch %d ran a ping callback without a ping" % k]
     return []
